@@ -94,22 +94,22 @@ func (s *shState) clone() *shState {
 }
 
 type shapeChecker struct {
-	c        *Ctx
-	fn       *ssa.Function
-	fNext    *types.Var
-	fPrev    *types.Var
-	fHead    *types.Var
-	fTail    *types.Var
-	fCount   *types.Var
-	problems map[string]string // key -> detail
-	hasLoop  bool
-	isNode   map[string]bool
-	paths    int
-	cut      bool
-	usesCount bool                  // some branch tests storeList.count (a relation the shape domain does not have)
-	unroll   int                    // how often a block may be entered on one path
-	inline   map[*ssa.Function]bool // helpers executed inside their callers (they rely on what the call site passes)
-	budget   int
+	c         *Ctx
+	fn        *ssa.Function
+	fNext     *types.Var
+	fPrev     *types.Var
+	fHead     *types.Var
+	fTail     *types.Var
+	fCount    *types.Var
+	problems  map[string]string // key -> detail
+	hasLoop   bool
+	isNode    map[string]bool
+	paths     int
+	cut       bool
+	usesCount bool                   // some branch tests storeList.count (a relation the shape domain does not have)
+	unroll    int                    // how often a block may be entered on one path
+	inline    map[*ssa.Function]bool // helpers executed inside their callers (they rely on what the call site passes)
+	budget    int
 }
 
 func (sc *shapeChecker) linkField(f *types.Var) string {
